@@ -380,7 +380,7 @@ func writeEvidence(e *Engine, prop, tier string, seed uint64, start time.Time, r
 		"faults_fired":        e.Stats.FaultsFired.Map(),
 		"distinct_iteration_schedules": e.Stats.Schedules.Len(),
 		"reach_probes":        e.Stats.Counts.Map(),
-		"components":          common.Components(),
+		"components":          common.Components("C"),
 		"seam_sites":          len(e.B.Sites),
 	}
 	if note != "" {
